@@ -97,7 +97,8 @@ PROPS = {
     'C19': {
         'level': 'exploration',
         'rule': 'distinct (rule set, placement on step or act, tick times relative to the limits, answer moment) cases on the virtual clock',
-        'parts': [part('timeout', TIMEOUT, 1500, 40000, judge=True, props=['C19'], chunk=100)],
+        'parts': [part('timeout', TIMEOUT, 1500, 40000, judge=True, props=['C19'], chunk=100),
+                  part('sqlite', TIMEOUT, 50, 1000, judge=True, props=['C19'], chunk=6, store='sqlite', race=0.0)],
     },
     'C07': {
         'level': 'exploration',
